@@ -33,11 +33,55 @@ type (
 	AddrError           = net.AddrError
 )
 
-var (
-	IPv4zero  = net.IPv4zero
-	IPv6zero  = net.IPv6zero
-	ErrClosed = net.ErrClosed
+type (
+	Buffers          = net.Buffers
+	DNSError         = net.DNSError
+	Flags            = net.Flags
+	HardwareAddr     = net.HardwareAddr
+	Interface        = net.Interface
+	InvalidAddrError = net.InvalidAddrError
+	IPAddr           = net.IPAddr
+	ParseError       = net.ParseError
+	TCPConn          = net.TCPConn
+	TCPListener      = net.TCPListener
+	UnixAddr         = net.UnixAddr
 )
+
+var (
+	IPv4bcast                  = net.IPv4bcast
+	IPv4allsys                 = net.IPv4allsys
+	IPv4allrouter              = net.IPv4allrouter
+	IPv4zero                   = net.IPv4zero
+	IPv6zero                   = net.IPv6zero
+	IPv6unspecified            = net.IPv6unspecified
+	IPv6loopback               = net.IPv6loopback
+	IPv6interfacelocalallnodes = net.IPv6interfacelocalallnodes
+	IPv6linklocalallnodes      = net.IPv6linklocalallnodes
+	IPv6linklocalallrouters    = net.IPv6linklocalallrouters
+	ErrClosed                  = net.ErrClosed
+	ErrWriteToConnected        = net.ErrWriteToConnected
+)
+
+const (
+	IPv4len = net.IPv4len
+	IPv6len = net.IPv6len
+)
+
+func CIDRMask(ones, bits int) IPMask          { return net.CIDRMask(ones, bits) }
+func IPv4Mask(a, b, c, d byte) IPMask         { return net.IPv4Mask(a, b, c, d) }
+func ParseMAC(s string) (HardwareAddr, error) { return net.ParseMAC(s) }
+
+func unsupported(what string) error {
+	panic("vnet: net." + what + " is not provided by the in-memory network shim")
+}
+
+func LookupIP(host string) ([]IP, error)                { return nil, unsupported("LookupIP") }
+func LookupHost(host string) ([]string, error)          { return nil, unsupported("LookupHost") }
+func ListenPacket(n, a string) (PacketConn, error)      { return nil, unsupported("ListenPacket") }
+func DialUDP(n string, l, r *UDPAddr) (*UDPConn, error) { return nil, unsupported("DialUDP") }
+func DialTimeout(network, address string, d time.Duration) (Conn, error) {
+	return Dial(network, address)
+}
 
 func ParseIP(s string) IP                             { return net.ParseIP(s) }
 func ParseCIDR(s string) (IP, *IPNet, error)          { return net.ParseCIDR(s) }
